@@ -18,6 +18,8 @@ Alphabet
                "tdok": the region is torn down (mark_dead) *between* the request leg and the simulator's answer of this very
                poll; the answer is then processed and delivered, the circuit is re-opened afterwards                      [dev]
   ("inject", "ev" | "msg")   proxy injects an event (eq_manager.inject_event / inject_message); at most 2 between polls
+  ("regrant",)               (multi-region searches) the viewer fetched Seed again and the region was granted a second
+                             EventQueueGet URL (region.update_caps); every later poll of that region goes through the new URL
   ("teardown",)              region torn down (mark_dead) and the viewer starts over on a new circuit with ack undef      [dev]
   In the multi-region search every event carries a trailing region index r: the session has 2 (thorough 3) regions, each with
   its own EventQueueGet cap, circuit and viewer-side ack; polls / injections / teardowns of different regions interleave and
@@ -215,6 +217,7 @@ class RegionModel:
         self.optional: List[Tuple[int, str]] = []      # dropped by a teardown: may never show up twice, need not show up
         self.inj_since_poll = 0
         self.torn_down = 0
+        self.regrants = 0
 
 
 class Model:
@@ -274,18 +277,19 @@ class Harness:
                  inject: Tuple[str, ...] = ("ev", "msg"), teardown: bool = True, rep: bool = True, lost: bool = True,
                  label: str = "", n_regions: int = 1, swallows: Tuple[str, ...] = ("none", "first", "all"),
                  midtd: Optional[bool] = None, midtd_sw: Tuple[str, ...] = ("all",),
-                 midtd_sims: Optional[Tuple[str, ...]] = None):
+                 midtd_sims: Optional[Tuple[str, ...]] = None, regrant: bool = False):
         self.sims, self.statuses, self.undef = tuple(sims), tuple(statuses), undef
         self.inject, self.teardown, self.rep, self.lost = tuple(inject), teardown, rep, lost
         self.label, self.n_regions, self.swallows = label, n_regions, tuple(swallows)
         self.midtd = teardown if midtd is None else midtd      # teardown between the two legs of one poll ...
+        self.regrant = regrant      # the viewer re-fetches the Seed cap and is granted a new EventQueueGet URL (once per region)
         self.midtd_sw = tuple(midtd_sw)                        # ... enumerated for these swallow modes
         self.midtd_sims = tuple(midtd_sims) if midtd_sims is not None else self.sims      # ... and these answers
 
     def config(self) -> Dict[str, Any]:
         return {"sims": list(self.sims), "statuses": list(self.statuses), "undef": self.undef, "inject": list(self.inject),
                 "teardown": self.teardown, "rep": self.rep, "lost": self.lost, "n_regions": self.n_regions,
-                "swallows": list(self.swallows), "midtd": self.midtd, "midtd_sw": list(self.midtd_sw), "midtd_sims": list(self.midtd_sims)}
+                "swallows": list(self.swallows), "midtd": self.midtd, "midtd_sw": list(self.midtd_sw), "midtd_sims": list(self.midtd_sims), "regrant": self.regrant}
 
     # ------------------------------------------------------------------------------------------ explorer API
     def fresh(self) -> World:
@@ -334,6 +338,8 @@ class Harness:
                     evs.append(("inject", kind) + suffix)
             if self.teardown and m.torn_down < 1:
                 evs.append(("teardown",) + suffix)
+            if self.regrant and m.regrants < 1:
+                evs.append(("regrant",) + suffix)
         return evs
 
     def canon(self, w: World):
@@ -348,7 +354,7 @@ class Harness:
             eq_state = tuple(sorted((k, _plain(v)) for k, v in vars(eq).items()))
             per_region.append((eq_state,
                                m.ack, (m.prev["ack"], m.prev["body"]) if m.prev else None, m.next_id, tuple(m.pending),
-                               tuple(m.optional), m.inj_since_poll, m.torn_down))
+                               tuple(m.optional), m.inj_since_poll, m.torn_down, m.regrants))
         return (tuple(per_region), regions, g.inj_n, tuple((a, tuple(v)) for a, v in g.regions.items()),
                 tuple(sorted(g.vetoed_only)))
 
@@ -368,6 +374,15 @@ class Harness:
             self._inject(w, ev[1], ev[2] if len(ev) > 2 else 0)
         elif kind == "teardown":
             self._teardown(w, ev[1] if len(ev) > 1 else 0)
+        elif kind == "regrant":
+            r = ev[1] if len(ev) > 1 else 0
+            # what the Seed response handler does with the simulator's (second) grant: region.update_caps(parsed)
+            new_url = cap_url(0, r, "EventQueueGet") + "-regranted"
+            w.eq_regions[r].update_caps({"EventQueueGet": new_url, "FooCap": cap_url(0, r, "FooCap")})
+            w.eq_urls[r] = new_url
+            w.rm[r].regrants += 1
+            w.last_obs = ("regrant",)
+            w.flags.add("regrant")
         elif kind == "poll":
             self._poll(w, ev[1], ev[2], ev[3], ev[4], ev[5] if len(ev) > 5 else 0)
         else:
@@ -645,7 +660,7 @@ class Harness:
 def searches(tier: str):
     """(harness, depth, deviation bound). Quick is the same space with smaller bounds / menus."""
     ANN1 = ("eac", "es", "tf", "cr", "tf0")       # mid-poll teardown is enumerated for the single-announcement answers
-    multi = dict(statuses=(), inject=("ev",), rep=False, lost=False, swallows=("none",), midtd_sw=("none",))
+    multi = dict(statuses=(), inject=("ev",), rep=False, lost=False, swallows=("none",), midtd_sw=("none",), regrant=True)
     if tier == "quick":
         return [
             (Harness(("p", "t", "pt"), midtd_sims=("p",), label="delivery "), 4, 3),
@@ -703,5 +718,6 @@ def replay(witness):
                 lost=cfg.get("lost", True), n_regions=int(cfg.get("n_regions", 1)), midtd=cfg.get("midtd"),
                 midtd_sw=tuple(cfg.get("midtd_sw", ("all",))),
                 midtd_sims=tuple(cfg["midtd_sims"]) if cfg.get("midtd_sims") is not None else None,
+                regrant=bool(cfg.get("regrant", False)),
                 swallows=tuple(cfg.get("swallows", ("none", "first", "all"))))
     return explore.replay_history(h, witness["history"])
